@@ -8,11 +8,11 @@ def T(level, note, technique, ref):
 MODEL = "Trusted base: the harness reference model (math/big, crypto/sha256; validated against RFC 9380 vectors at start-up), rapid v1.3.0, the Go toolchain."
 
 TEXT = {
- "C01": T("Generated (point spec, scalar) pairs with boundary-biased scalars (0,1,n-1, bit 255, sparse, limb patterns) and points in many projective representations; Multiply is compared with an independent affine double-and-add, with literal k-fold sums for small k and with metamorphic relations. Exploration: finds defects that affect classes of scalars/points, proves nothing about all 2^512 pairs.",
+ "C01": T("Generated (point spec, scalar) pairs with boundary-biased scalars (0,1,n-1, bit 255, word-sized, algebraic constants, patterns in the Montgomery form), scalar objects with a history, and points in many projective representations (API recipes, white-box rescaling and coordinate targets); Multiply is compared with an independent affine double-and-add, with literal k-fold sums for small k and with metamorphic relations. Exploration: finds defects that affect classes of scalars/points, proves nothing about all 2^512 pairs.",
           MODEL, "property-based differential testing against a math/big reference model + metamorphic relations (rapid)", "DESIGN.md 4/C01"),
- "C02": T("Generated ordered pairs of points by relation class (independent, P=Q, P=-Q with same/different Z, identities in several representations, aliasing, nil) with white-box rescaling of projective coordinates; results compared with the textbook affine law and validated as curve points. Every named exceptional class is constructed on every run; completeness itself is explored, not proved.",
+ "C02": T("Generated ordered pairs of points by relation class (independent, P=Q, P=-Q with same/different Z, identities in several representations, aliasing, nil) with white-box rescaling of projective coordinates and named intermediates of the formulas aimed at boundary values; results compared with the textbook affine law and validated as curve points. Every named exceptional class is constructed on every run; completeness itself is explored, not proved.",
           MODEL + " White-box coordinate access through a build overlay (calibrated at start-up; API-only fallback).", "property-based differential testing over constructed exceptional classes (rapid, build-overlay accessor)", "DESIGN.md 4/C02"),
- "C03": T("Byte strings from constructed classes (valid encodings, single-field mutations, p-aliases, hybrid prefixes, all 1-byte strings, random) are fed to every decoder with a prior receiver; acceptance is compared with a predicate written from the statement, accepted values with the model point, rejected inputs must leave the receiver's value unchanged. Thorough tier adds coverage-guided native fuzzing with the same oracle.",
+ "C03": T("Byte strings from constructed classes (valid encodings, single-field mutations, p-aliases, the exhaustive word-wise neighbourhood of p, hybrid prefixes, all 1-byte strings, non-ASCII hex, random) are fed to every decoder, twice in a row, with a prior receiver (incl. used objects and zero-value structs); acceptance is compared with a predicate written from the statement, accepted values with the model point, rejected inputs must leave the receiver's value unchanged. Thorough tier adds coverage-guided native fuzzing with the same oracle.",
           MODEL, "property-based differential testing of decoders against an acceptance predicate + native coverage-guided fuzzing", "DESIGN.md 4/C03"),
  "C04": T("Points in generated representations (API recipes and white-box rescaling, both parities, identity representations) are encoded; bytes are compared with SEC1 bytes built by the model, all views must agree, all representations must give identical bytes, and both encodings must round-trip through Decode.",
           MODEL, "property-based differential + round-trip testing (rapid)", "DESIGN.md 4/C04"),
@@ -22,7 +22,7 @@ TEXT = {
           MODEL, "property-based differential testing against math/big (rapid) + native fuzzing", "DESIGN.md 4/C06"),
  "C07": T("Byte/hex strings around n (single-limb differences, n+-2^k, lengths 0..80) decoded by all scalar decoders; acceptance compared with len=32 and int<n, stored value re-derived from the limbs independently, error classes compared.",
           MODEL, "property-based differential testing against an acceptance predicate (rapid) + native fuzzing", "DESIGN.md 4/C07"),
- "C08": T("Generated (msg, DST) including DST lengths 255/256/>255 and all memory layouts, compared with an independent implementation of RFC 9380 hash_to_curve / encode_to_curve written from the non-optimised description; branch classes of the model are counted.",
+ "C08": T("Generated (msg, DST) including DST lengths 255/256/>255/2^16+-, an exhaustive (message length x DST length) grid, pre-image lengths around powers of two, sequences of calls from re-used caller buffers and all memory layouts, compared with an independent implementation of RFC 9380 hash_to_curve / encode_to_curve written from the non-optimised description; branch classes of the model are counted.",
           MODEL, "property-based differential testing against an independent RFC 9380 implementation (rapid) + native fuzzing", "DESIGN.md 4/C08"),
  "C09": T("Generated (msg, DST) and chosen 48-byte expander outputs fed to the wide reduction, compared with OS2IP(expand_message_xmd) mod n computed by the model.",
           MODEL, "property-based differential testing against the model (rapid)", "DESIGN.md 4/C09"),
@@ -38,7 +38,7 @@ TEXT = {
           MODEL, "property-based differential testing (rapid)", "DESIGN.md 4/C14"),
  "C15": T("Generated API call descriptors with generated slice layouts (interior slices, spare capacity, shared backing arrays); full backing arrays and non-receiver operands compared before/after, returned slices scribbled on.",
           MODEL, "property-based invariant checking over calls and memory layouts (rapid)", "DESIGN.md 4/C15"),
- "C16": T("Generated sets of concurrent calls over shared arguments run under the Go race detector; results compared with sequential results.",
+ "C16": T("Generated sets of concurrent calls over shared arguments (two shared DSTs, shared encodings, error paths) run under the Go race detector, starting cold in every process; results compared with sequential results computed afterwards.",
           MODEL + " The Go race detector (happens-before).", "generated concurrent workloads under the race detector + differential result comparison (rapid)", "DESIGN.md 4/C16"),
  "C17": T("Generated main packages (import subsets, including the empty one) built with plain go build and executed; output compared with the model.",
           MODEL, "generated-program testing over import sets with a differential oracle", "DESIGN.md 4/C17"),
